@@ -234,6 +234,23 @@ func c15Case(c *fw.Case, targeted bool) {
 		}
 	})
 	c.Evals(1)
+	if !pan && encErr == nil && fam != "smgp30" && len(img) >= 12+statusLen+16 {
+		// a receiver that verifies straight on the received frame: Status taken zero-copy from the image (a slice with
+		// the authenticator right behind it), recomputation, and the frame must still be what was received
+		frame := append([]byte(nil), img...)
+		keep := append([]byte(nil), frame...)
+		var onFrame []byte
+		if p2, v2, s2 := fw.Try(func() { onFrame = cmpp.GenConnectRespAuthISMG(frame[12:12+statusLen], string(want), cr.secret) }); p2 {
+			c.Failf("response-"+fw.PanicSig(v2, s2)+"/"+fam, "%s: %v\n%s", ctx, v2, s2)
+		} else {
+			if !bytes.Equal(frame, keep) {
+				c.Failf("verification-writes-into-received-frame/"+fam, "GenConnectRespAuthISMG(frame[12:%d], …) changed the received frame: %s -> %s\n%s", 12+statusLen, hx(keep), hx(frame), ctx)
+			}
+			if !bytes.Equal(onFrame, frame[12+statusLen:12+statusLen+16]) && bytes.Equal(frame, keep) {
+				c.Failf("response-verification-on-frame-fails/"+fam, "recomputation on the received frame gives %s, the frame carries %s\n%s", hx(onFrame), hx(frame[12+statusLen:12+statusLen+16]), ctx)
+			}
+		}
+	}
 	switch {
 	case pan:
 		c.Failf("response-"+fw.PanicSig(val, st)+"/"+fam, "%s: %v\n%s", ctx, val, st)
